@@ -49,6 +49,9 @@ var c16Rots = [][]c16Crop{
 	{{"WW", "2001-10-05", "2002-07-25", "2009", "2510", "1508", 0}, {"SW", "2003-03-25", "2003-08-10", "0103", "1504", "3108", 1}, {"ZR", "2004-04-10", "2004-10-10", "2503", "3004", "3110", 1}},
 	// harvests in the last days of December, of a common year and of a leap year
 	{{"ZR", "2002-04-10", "2002-12-22", "2503", "3004", "3012", 0}, {"SW", "2003-03-25", "2003-08-10", "0103", "1504", "3108", 0}, {"ZR", "2004-04-10", "2004-12-29", "2503", "3004", "3012", 0}},
+	// a first crop whose table row has no windows (0000: rotation dates) before crops with windows whose rotation dates lie
+	// outside their windows (automatic sowing has to move them into the window)
+	{{"SW", "2002-03-25", "2002-08-10", "0000", "0000", "0000", 0}, {"WW", "2002-09-15", "2003-07-30", "0510", "0511", "1508", 0}, {"SM", "2004-05-25", "2004-09-25", "1004", "1505", "3009", 0}},
 }
 
 // c16Row renders one automan.txt row at the fixed columns the reader uses.
@@ -135,6 +138,9 @@ func c16Specs(tier string, seed int) []c16Spec {
 	}
 	for r := range c16Rots {
 		for t := 0; t <= 6; t++ {
+			if c16Rots[r][0].sow1 == "0000" && t >= 1 && t <= 3 {
+				continue // (these table variants derive or remove the windows of every row)
+			}
 			for sw := 0; sw < 16; sw++ {
 				out = append(out, c16Spec{Rot: r, Table: t, Switch: sw, Alpha: alpha, D: d})
 			}
@@ -178,9 +184,9 @@ func init() {
 		Assumptions: []string{"tables: base, narrow window with unsatisfiable moisture conditions, no windows (rotation dates), latest harvest 5 days after the sowing window, one-stage irrigation with small maximum, wide irrigation with maximum-temperature sowing, temperature sum for sowing never reached", "the sowing window and latest harvest date belong to the year of the rotation entry's sowing and harvest date"},
 		Bound: func(t string) string {
 			if t == "quick" {
-				return "8 rotations (incl. permanent crop after permanent crop, automatic organic fertiliser on middle and last entries, harvests in the last days of December of a common and a leap year) x 7 tables x 16 switch combinations x 3^3 block words"
+				return "9 rotations (incl. a crop without windows before crops whose rotation dates lie outside their windows, permanent crop after permanent crop, automatic organic fertiliser on middle and last entries, harvests in the last days of December of a common and a leap year) x 7 tables x 16 switch combinations x 3^3 block words"
 			}
-			return "8 rotations x 7 tables x 16 switch combinations x 4^4 block words"
+			return "9 rotations x 7 tables x 16 switch combinations x 4^4 block words"
 		},
 		Budget: func(t string) time.Duration {
 			if t == "quick" {
@@ -247,6 +253,9 @@ func c16Run(raw json.RawMessage, c *mc.Ctx) {
 	off := func(iso string) int { return int(proj.D(iso).Sub(wstart).Hours()/24 + 0.5) }
 	// blocks: from 10 days before the first entry's sowing window, consecutive
 	w1, _ := time.Parse("02012006", rot[0].sow1+rot[0].sow[:4])
+	if rot[0].sow1 == "0000" {
+		w1 = proj.D(rot[0].sow)
+	}
 	first := off(w1.Format("2006-01-02")) - 10
 	ws := [][]string{sp.Word}
 	if sp.Word == nil {
@@ -392,8 +401,8 @@ func c16Run(raw json.RawMessage, c *mc.Ctx) {
 					}
 					ys, yh := cr.sow[:4], cr.harvest[:4]
 					win := func(ddmm, y string) time.Time { t, _ := time.Parse("02012006", ddmm+y); return t }
-					fixedSow := !autoSow || sp.Table == 2
-					fixedHar := !autoHar || sp.Table == 2
+					fixedSow := !autoSow || sp.Table == 2 || cr.sow1 == "0000"
+					fixedHar := !autoHar || sp.Table == 2 || cr.h2 == "0000"
 					if fixedSow {
 						if !s.Equal(proj.D(cr.sow)) {
 							// with automatic harvest a late harvest of the preceding crop moves the sowing by design
